@@ -14,6 +14,9 @@ def make_cadence(c):
     frames = []
     for k, f in enumerate(c["frames"]):
         fr = stg.Frame(fchans=c["F"], tchans=f["T"], df=c["df"], dt=c["dt"], fch1=c["fch1"], ascending=c["ascending"], t_start=f["t_start"], seed=k)
+        if c.get("ts_shift"):
+            # a frame may carry a time axis of its own (e.g. sample mid-points): "its time axis afterwards equals what it was before" is about that axis
+            fr.ts = fr.ts + c["ts_shift"] * c["dt"]
         frames.append(fr)
     kw = dict(t_slew=c.get("t_slew", 0), t_overwrite=bool(c.get("t_overwrite")))
     if c.get("ordered"):
@@ -76,6 +79,8 @@ def run_case(c):
     refs = []
     for fr in sub:
         f2 = stg.Frame(fchans=c["F"], tchans=fr.tchans, df=c["df"], dt=c["dt"], fch1=c["fch1"], ascending=c["ascending"], t_start=fr.t_start)
+        if c.get("ts_shift"):
+            f2.ts = f2.ts + c["ts_shift"] * c["dt"]
         with np.errstate(all="ignore"):
             f2.add_signal(**sig_args(c, sub[0], offset=(fr.t_start - t0)))
         refs.append(f2.data.copy())
